@@ -229,11 +229,23 @@ func (x *Exec) mapKey(t string, kt types.Type, st *State) string {
 
 func (x *Exec) execAlloc(fr *frame, t *ssa.Alloc, st *State, reach string) *State {
 	et := t.Type().(*types.Pointer).Elem()
+	var before []string
+	var sfp *predApp
+	if _, isS := et.Underlying().(*types.Struct); isS {
+		if sf, ok := x.eng.storeFacts[x.so.structComp(et)]; ok {
+			x.flushStores(st, reach)
+			before = x.predArgs(sf.Args, st)
+			sfp = &sf
+		}
+	}
 	r := x.allocRef(st, "new_"+sanitize(t.Comment))
 	switch u := et.Underlying().(type) {
 	case *types.Struct:
 		comp := x.so.structComp(et)
 		st.set(comp, x.define(comp, x.so.comps[comp], "(store "+st.get(comp)+" "+r+" "+x.so.zeroOf(et)+")"))
+		if sfp != nil {
+			x.pending = &pendingStore{comp: comp, obj: r, before: before, sf: *sfp}
+		}
 	case *types.Array:
 		comp := x.so.elemComp(u.Elem())
 		st.set(comp, x.define(comp, x.so.comps[comp], "(store "+st.get(comp)+" "+r+" "+x.so.zeroOf(et)+")"))
